@@ -636,6 +636,14 @@ def run(ctx):
             if len(D.fun_shape) == 1 and len(fx) == D.par_dim:
                 reps.append(("arr-foreign-funflag-argT", False, lambda: model.forward(CUQIarray(x.copy(), is_par=False, geometry=foreign)), fwd_line(f"arr:0:2:{qv(x)}", True)))
                 reps.append(("arr-foreign-argF", False, lambda: model.forward(CUQIarray(fx.copy(), is_par=True, geometry=foreign), is_par=False), fwd_line(f"arr:1:2:{qv(fx.ravel())}", False)))
+        # a CUQIarray whose geometry is a MappedGeometry over an equal base with a map that differs from the model's ONLY in constants /
+        # closure values (same bytecode): not the model's geometry -> it is the plain vector it holds
+        if D.family == "map":
+            near = near_mapped_geometry(Dg)
+            if near is not None:     # (by construction another geometry: NOT conditioned on the implementation's ==, which is what is under test)
+                ctx.extra_cov["nearmap_geometries"] = ctx.extra_cov.get("nearmap_geometries", 0) + 1
+                reps.append(("arr-nearmap-par", False, lambda: model.forward(CUQIarray(x.copy(), is_par=True, geometry=near)), fwd_line(f"arr:1:2:{qv(x)}", True)))
+                reps.append(("arr-nearmap-fun-argF", False, lambda: model.forward(CUQIarray(fx.copy(), is_par=False, geometry=near), is_par=False), fwd_line(f"arr:0:2:{qv(fx.ravel())}", False)))
         reps.append(("args-wrong-kw", False, lambda: model.forward(**{a + "_": x.copy()}), fwd_line(f"nd:{qv(x)}", True, 0, a + "_")))
         reps.append(("args-pos-and-kw", False, lambda: model.forward(x.copy(), **{a: x.copy()}), fwd_line(f"nd:{qv(x)}", True, 1, a)))
         reps.append(("args-two-pos", False, lambda: model.forward(x.copy(), x.copy()), fwd_line(f"nd:{qv(x)}", True, 2)))
@@ -760,6 +768,7 @@ def run(ctx):
     c12_ext.constructors(ctx, cuqi, lines, pending, thorough)
     c12_ext.geometry_equality(ctx, cuqi, lines, pending, thorough)
     c12_ext.gradient_samples_wrt(ctx, cuqi, lines, pending, verdicts, 340 if thorough else 68)
+    c12_ext.geometry_reassignment(ctx, cuqi, lines, pending, verdicts, oracle_jobs, 400 if thorough else 80)
 
     # -------------------------------------------------------------------- model side + diff
     outs = ctx.lean.drive(lines)
@@ -1650,7 +1659,30 @@ def histories(ctx, cuqi, rng, lines, pending, verdicts, nhist):
                 ctx.fail(f"history:{lab}:depends-on-history", desc, short(before[lab]), short(after[lab]), "the same call gives another result after the history")
 
 
-FOREIGN_FWD = ["arr-foreign-par", "arr-foreign-funflag-argT", "arr-foreign-argF", "arr-default-par"]
+FOREIGN_FWD = ["arr-foreign-par", "arr-foreign-funflag-argT", "arr-foreign-argF", "arr-default-par", "arr-nearmap-par", "arr-nearmap-fun-argF"]
+NEARMAP_FWD = ["arr-nearmap-par", "arr-nearmap-fun-argF"]
+
+
+def near_mapped_geometry(g):
+    """MappedGeometry over an equal (deep-copied) base whose `map` has the SAME code as g.map but other numeric constants / closure values
+    (x**2 -> x**3, a*x+b -> (a+1)*x+(b+1)); `imap` is the same object.  None when the map has nothing to tweak."""
+    import types
+    f = getattr(g, "map", None)
+    if not isinstance(f, types.FunctionType):
+        return None
+    code = f.__code__
+    consts = tuple((c + 1) if (isinstance(c, (int, float)) and not isinstance(c, bool)) else c for c in code.co_consts)
+    cells = None
+    changed = consts != code.co_consts
+    if f.__closure__:
+        vals = [c.cell_contents for c in f.__closure__]
+        new = [(v + 1.0) if isinstance(v, (int, float)) and not isinstance(v, bool) else v for v in vals]
+        changed = changed or new != vals
+        cells = tuple(types.CellType(v) for v in new)
+    if not changed:
+        return None
+    f2 = types.FunctionType(code.replace(co_consts=consts), f.__globals__, f.__name__, f.__defaults__, cells)
+    return type(g)(_copy.deepcopy(g.geometry), map=f2, imap=g.imap)
 
 
 def _is_parameters_of(c, Rg, fun_ref):
@@ -1703,6 +1735,18 @@ def oracle_forward(ctx, cuqi, verdicts, conf, M, D, R, model, Dg, Rg, x, fx, Xs,
             verdicts["forward:foreign:wrap-wrong"] = verdicts.get("forward:foreign:wrap-wrong", 0) + 1
         else:
             verdicts["forward:foreign:wrap-ok"] = verdicts.get("forward:foreign:wrap-ok", 0) + 1
+    for kind in NEARMAP_FWD:
+        c = results.get(kind)
+        if c is None or c[0] == "err" or ref is None:
+            continue
+        desc = {**desc0, "input": kind}
+        data = c[1] if c[0] == "nd" else c[3] if c[0] == "arr" else None
+        if data is None or not veq(data, ref, tol):
+            ctx.fail(f"forward:{kind}:value", desc, ref.tolist(), short(c),
+                     "a CUQIarray carrying ANOTHER geometry (a MappedGeometry whose map differs from the model's only in constants) is not treated as the plain vector it holds")
+            verdicts["forward:nearmap:wrong"] = verdicts.get("forward:nearmap:wrong", 0) + 1
+        else:
+            verdicts["forward:nearmap:same"] = verdicts.get("forward:nearmap:same", 0) + 1
     for kind in IN_SCOPE_FWD:
         if kind not in results:
             continue
